@@ -191,9 +191,9 @@ func init() {
 			ctx.RunCase("tcp-inputs", "E", scenarioTCP(c.spec(), 1), c, nil)
 		}
 		runUDP(ctx)
-		bound := 1
+		bound := 2
 		if ctx.Tier == "thorough" {
-			bound = 2
+			bound = 3
 		}
 		for _, s := range gridS() {
 			engine.ExploreS(ctx, scenarioTCP(s, 1), engine.SConfig{Bound: bound, Shard: ctx.Shard, NShards: ctx.NShards, Deadline: ctx.Deadline})
